@@ -21,6 +21,7 @@ import (
 	"fmt"
 	"reflect"
 	"regexp"
+	"sort"
 	"time"
 	"unicode"
 	"unicode/utf8"
@@ -107,7 +108,8 @@ func mergeConfigDict(opts *options, to, from *Config) Error {
 		}()
 	}
 
-	for k, v := range dict {
+	for _, k := range sortedKeys(dict) {
+		v := dict[k]
 		ctx := context{
 			parent: cfgSub{to},
 			field:  k,
@@ -303,18 +305,39 @@ func normalizeMapInto(cfg *Config, opts *options, from reflect.Value) Error {
 		return raiseKeyInvalidTypeMerge(cfg, from.Type())
 	}
 
-	for _, k := range from.MapKeys() {
+	// visit the keys in sorted order: a key is inserted after every key it
+	// extends (`a` before `a.b`), so overlapping keys are merged or rejected
+	// independent of the order the runtime enumerates the map in.
+	mapKeys := from.MapKeys()
+	names := make([]string, len(mapKeys))
+	for i, k := range mapKeys {
 		k = chaseValueInterfaces(k)
 		if k.Kind() != reflect.String {
 			return raiseKeyInvalidTypeMerge(cfg, from.Type())
 		}
+		names[i] = k.String()
+	}
+	sort.Sort(keysByName{names, mapKeys})
 
-		err := normalizeSetField(cfg, opts, noTagOpts, k.String(), from.MapIndex(k))
+	for i, k := range mapKeys {
+		err := normalizeSetField(cfg, opts, noTagOpts, names[i], from.MapIndex(k))
 		if err != nil {
 			return err
 		}
 	}
 	return nil
+}
+
+type keysByName struct {
+	names []string
+	keys  []reflect.Value
+}
+
+func (s keysByName) Len() int           { return len(s.names) }
+func (s keysByName) Less(i, j int) bool { return s.names[i] < s.names[j] }
+func (s keysByName) Swap(i, j int) {
+	s.names[i], s.names[j] = s.names[j], s.names[i]
+	s.keys[i], s.keys[j] = s.keys[j], s.keys[i]
 }
 
 func normalizeStruct(opts *options, from reflect.Value) (*Config, Error) {
